@@ -6,11 +6,14 @@ import (
 	"flag"
 	"fmt"
 	"hash/fnv"
+	"os"
 	"reflect"
 	"runtime"
 	"sort"
 	"sync"
+	"sync/atomic"
 	"testing"
+	"time"
 
 	"pgregory.net/rapid"
 
@@ -33,8 +36,45 @@ func TestMain(m *testing.M) {
 	}
 	if !coordinator {
 		runtime.GOMAXPROCS(1)
+		go watchdog()
 	}
 	ev.Main(m, "C16")
+}
+
+// A decode that does not return is never a verdict about the property; the watchdog
+// only turns it into a diagnosable infrastructure failure (exit 2) that names the
+// input, instead of an anonymous go test timeout. The tag loops of the generated
+// readers spin up to 2^32 times when a tag count claims so (see maxTagLoop); such
+// inputs are pre-screened with krammar.Scan, and this fires only if the pre-screen
+// and the readers disagree about where a tag count sits.
+var (
+	decodeSeq atomic.Uint64
+	curInput  atomic.Pointer[inputRef]
+)
+
+type inputRef struct {
+	c      krammar.Cell
+	in     []byte
+	unsafe bool
+}
+
+func watchdog() {
+	last, same := uint64(0), 0
+	for {
+		time.Sleep(time.Second)
+		if n := decodeSeq.Load(); n != last || n%2 == 0 {
+			last, same = n, 0
+			continue
+		}
+		if same++; same >= 90 {
+			what := "?"
+			if p := curInput.Load(); p != nil {
+				what = fmt.Sprintf("%s version %d unsafe=%v input %x", p.c.B.Name, p.c.V, p.unsafe, capBytes(p.in, 2000))
+			}
+			fmt.Printf("VERIF-INFRA: C16 one decode call has been running for %d s: %s\n", same, what)
+			os.Exit(2)
+		}
+	}
 }
 
 // Allocation bound: TotalAlloc delta around one ReadFrom/UnsafeReadFrom call must be
@@ -100,6 +140,8 @@ type decodeRes struct {
 
 var ms1, ms2 runtime.MemStats
 
+var traceInputs = os.Getenv("VERIF_C16_TRACE") != ""
+
 func decode(c krammar.Cell, in []byte, unsafe, measure bool) (r decodeRes) {
 	p := c.B.New()
 	if c.B.Kind != "standalone" {
@@ -108,6 +150,9 @@ func decode(c krammar.Cell, in []byte, unsafe, measure bool) (r decodeRes) {
 	src := make([]byte, len(in)) // exact capacity: nothing valid lies behind the input
 	copy(src, in)
 	r.p, r.unsafe = p, unsafe
+	curInput.Store(&inputRef{c, in, unsafe})
+	decodeSeq.Add(1) // odd: a decode is running
+	defer decodeSeq.Add(1)
 	if measure {
 		runtime.ReadMemStats(&ms1)
 	}
@@ -158,6 +203,10 @@ func tooManyTagIterations(c krammar.Cell, in []byte) bool {
 // evalInput runs the C16 oracle for one input against ReadFrom and UnsafeReadFrom.
 // It returns a violation description or "", and whether a decode succeeded.
 func evalInput(c krammar.Cell, in []byte) (msg string, decoded bool) {
+	if traceInputs {
+		// diagnosing a stalled run: the last line printed is the input being decoded
+		fmt.Fprintf(os.Stderr, "C16-TRACE %s v%d %x\n", c.B.Name, c.V, in)
+	}
 	if tooManyTagIterations(c, in) {
 		ev.Class("skipped_tag_count_over_4096")
 		return "", false
@@ -175,6 +224,7 @@ func evalInput(c krammar.Cell, in []byte) (msg string, decoded bool) {
 		if r.alloc > bound {
 			return fmt.Sprintf("%s of %d input bytes allocated %d bytes > bound %d (K0 %d + F %d * len)", name, len(in), r.alloc, bound, allocK0, factor[c.B.Name]), false
 		}
+		allocBucket(r.alloc, bound)
 		if r.err != nil {
 			continue
 		}
@@ -217,6 +267,21 @@ func evalInput(c krammar.Cell, in []byte) (msg string, decoded bool) {
 		}
 	}
 	return "", decoded
+}
+
+// allocBucket counts how close the measured allocation came to the bound (generator
+// health: the bound is not vacuous if the upper buckets are populated).
+func allocBucket(alloc, bound uint64) {
+	switch pct := alloc * 100 / bound; {
+	case pct >= 50:
+		ev.Class("alloc_50_to_100_percent_of_bound")
+	case pct >= 10:
+		ev.Class("alloc_10_to_50_percent_of_bound")
+	case pct >= 1:
+		ev.Class("alloc_1_to_10_percent_of_bound")
+	default:
+		ev.Class("alloc_under_1_percent_of_bound")
+	}
 }
 
 func capBytes(b []byte, n int) []byte {
@@ -333,11 +398,79 @@ type derived struct {
 	data []byte
 }
 
-// derive builds the mutated and max-claim inputs from one valid encoding. Order
-// matters: moderate claims come before extreme ones, so that a decoder that lost its
-// length guard is reported through the allocation bound before an input could exhaust
-// memory.
-func derive(rt *rapid.T, enc *krammar.Enc) []derived {
+// Values a single length field is rewritten to. The moderate ones cannot make even a
+// decoder without any length guard allocate more than ~2^20 elements, so such a
+// decoder is reported through the allocation bound within the quick budget; the
+// extreme ones (TestExtreme, run after everything else) would make it allocate
+// gigabytes or spin for 2^31 iterations, which ends as an out-of-memory or timeout
+// (infrastructure) instead of a violation.
+const (
+	moderateSteps = 12
+	extremeSteps  = 8
+)
+
+func rewriteValue(m krammar.Mark, step int, extreme bool, cur, rem int64) (int64, bool) {
+	if !extreme {
+		switch step {
+		case 0:
+			return -1, true
+		case 1:
+			return 0, true
+		case 2:
+			return cur - 1, true
+		case 3:
+			return cur + 1, true
+		case 4:
+			return rem, true
+		case 5:
+			return rem + 1, true
+		case 6:
+			return 2*rem + 7, true
+		case 7:
+			return -2, true
+		case 8:
+			if m.Kind == krammar.MLenI16 {
+				return -32768, true
+			}
+			return -(1 << 31), true
+		case 9:
+			if m.Kind == krammar.MLenI16 {
+				return 32767, true
+			}
+			return 1 << 16, true
+		case 10:
+			return 1 << 20, true
+		case 11:
+			return rem - 1, true
+		}
+		return 0, false
+	}
+	if m.Kind == krammar.MLenI16 {
+		return 0, false
+	}
+	switch step {
+	case 0:
+		return 1 << 24, true
+	case 1:
+		return 1 << 28, true
+	case 2:
+		return 1<<31 - 1, true
+	case 3:
+		return 1<<31 - 2, true
+	case 4:
+		return 1 << 31, true // compact/tag fields only: int32(uvarint) wraps
+	case 5:
+		return 1<<32 - 2, true // compact: uvarint 2^32-1
+	case 6:
+		return 1<<32 - 1, true // tag sizes / counts
+	case 7:
+		return 1<<31 + rem, true
+	}
+	return 0, false
+}
+
+// derive builds the mutated and max-claim inputs from one valid encoding.
+func derive(rt *rapid.T, enc *krammar.Enc, extreme bool) []derived {
 	buf := enc.Buf
 	var out []derived
 	var lens []krammar.Mark
@@ -351,6 +484,25 @@ func derive(rt *rapid.T, enc *krammar.Enc) []derived {
 		if isLen(m.Kind) {
 			lens = append(lens, m)
 		}
+	}
+	if extreme {
+		sel := pick(rt, "len", len(lens), 24)
+		for step := 0; step < extremeSteps; step++ {
+			for _, i := range sel {
+				m := lens[i]
+				if m.Kind == krammar.MTagCount {
+					continue // counts above maxTagLoop are pre-screened anyway
+				}
+				val, ok := rewriteValue(m, step, true, readLen(buf, m), int64(len(buf)-(m.Off+m.Width)))
+				if !ok {
+					continue
+				}
+				if nb := rewrite(buf, m, val); nb != nil {
+					out = append(out, derived{"rewrite_extreme", nb})
+				}
+			}
+		}
+		return out
 	}
 	// truncation at every boundary (sampled when there are very many)
 	var offs []int
@@ -367,8 +519,10 @@ func derive(rt *rapid.T, enc *krammar.Enc) []derived {
 		out = append(out, derived{"truncate", buf[:len(buf)-1]})
 	}
 	out = append(out, derived{"extend", append(append([]byte{}, buf...), 0, 0, 0, 0, 1)})
-	// max-claim: a drawn subset of the array/bytes/string lengths set, last to first,
-	// to exactly the number of bytes that follow the length field
+	// max-claim: array/bytes/string lengths set, last to first, to exactly the number
+	// of bytes that follow the length field (the largest value the readers' guards let
+	// through). Round 0: every array; round 1: every array, bytes and string; rounds
+	// 2, 3: drawn subsets.
 	var claimable []int
 	for i, m := range lens {
 		if m.Kind != krammar.MTagSize && m.Kind != krammar.MTagCount {
@@ -376,16 +530,16 @@ func derive(rt *rapid.T, enc *krammar.Enc) []derived {
 		}
 	}
 	if len(claimable) > 0 {
-		for round := 0; round < 3; round++ {
+		for round := 0; round < 4; round++ {
 			cur := append([]byte{}, buf...)
-			arraysOnly := round < 2
+			arraysOnly := round == 0 || round == 2
 			n := 0
 			for j := len(claimable) - 1; j >= 0; j-- {
 				m := lens[claimable[j]]
 				if arraysOnly && m.What != "array" {
 					continue
 				}
-				if round > 0 && !rapid.Bool().Draw(rt, "claim") {
+				if round >= 2 && !rapid.Bool().Draw(rt, "claim") {
 					continue
 				}
 				rem := int64(len(cur) - (m.Off + m.Width))
@@ -400,53 +554,24 @@ func derive(rt *rapid.T, enc *krammar.Enc) []derived {
 			}
 			if n > 0 {
 				out = append(out, derived{"maxclaim", cur})
-				// the same claims with generous padding behind them, so that the claimed
-				// allocations actually happen
+				// the same claims with padding behind them, so that the claimed
+				// allocations actually happen and the element loops run
 				out = append(out, derived{"maxclaim", append(cur, make([]byte, 64+rapid.IntRange(0, 512).Draw(rt, "pad"))...)})
 			}
 		}
 	}
-	// single length fields rewritten; values in ascending order of the claim
+	// single length fields rewritten
 	sel := pick(rt, "len", len(lens), 24)
-	for step := 0; step < 10; step++ {
+	for step := 0; step < moderateSteps; step++ {
 		for _, i := range sel {
 			m := lens[i]
 			cur := readLen(buf, m)
-			rem := int64(len(buf) - (m.Off + m.Width))
-			var val int64
-			switch step {
-			case 0:
-				val = -1
-			case 1:
-				val = 0
-			case 2:
-				val = cur - 1
-			case 3:
-				val = cur + 1
-			case 4:
-				val = rem
-			case 5:
-				val = rem + 1
-			case 6:
-				val = 2*rem + 7
-			case 7:
-				val = 1 << 16
-			case 8:
-				val = 1 << 20
-			case 9:
-				val = 1<<31 - 1
-				if m.Kind == krammar.MLenI16 {
-					val = 32767
-				}
+			val, ok := rewriteValue(m, step, false, cur, int64(len(buf)-(m.Off+m.Width)))
+			if !ok || val == cur {
+				continue
 			}
 			if m.Kind == krammar.MTagCount && val > maxTagLoop {
-				if step < 9 {
-					continue
-				}
 				val = maxTagLoop // larger counts are pre-screened anyway
-			}
-			if val == cur {
-				continue
 			}
 			if nb := rewrite(buf, m, val); nb != nil {
 				out = append(out, derived{"rewrite", nb})
@@ -492,8 +617,9 @@ func one(rt fataler, c krammar.Cell, kind string, in []byte) {
 	}
 }
 
-// structured runs inputs (b) and (c) for one drawn valid value of the cell.
-func structured(rt *rapid.T, c krammar.Cell) {
+// validEncoding draws a valid value of the cell and encodes it with the reference
+// encoder (recording the positions of all length fields and boundaries).
+func validEncoding(rt *rapid.T, c krammar.Cell) *krammar.Enc {
 	mode := krammar.ModeRandom
 	if rapid.IntRange(0, 3).Draw(rt, "full") == 0 {
 		mode = krammar.ModeFull
@@ -507,8 +633,16 @@ func structured(rt *rapid.T, c krammar.Cell) {
 	if err != nil {
 		rt.Fatalf("VERIF-INFRA harness: reference encoder: %v", err)
 	}
-	one(rt, c, "valid", enc.Buf)
-	for _, d := range derive(rt, enc) {
+	return enc
+}
+
+// structured runs inputs (b) and (c) for one drawn valid value of the cell.
+func structured(rt *rapid.T, c krammar.Cell, extreme bool) {
+	enc := validEncoding(rt, c)
+	if !extreme {
+		one(rt, c, "valid", enc.Buf)
+	}
+	for _, d := range derive(rt, enc, extreme) {
 		one(rt, c, d.kind, d.data)
 	}
 }
@@ -524,6 +658,16 @@ func shardCells() []krammar.Cell {
 	return out
 }
 
+// handwritten reports whether the cell's decoder is hand-written (record.go, api.go)
+// or one of the record / message-set formats the property names.
+func handwritten(c krammar.Cell) bool {
+	switch c.B.Name {
+	case "Record", "RecordBatch", "MessageV0", "MessageV1", "StickyMemberMetadata", "Header":
+		return true
+	}
+	return false
+}
+
 func extras() {
 	min, max := ^uint64(0), uint64(0)
 	for _, f := range factor {
@@ -534,8 +678,24 @@ func extras() {
 			max = f
 		}
 	}
-	ev.Extra("alloc_bound", fmt.Sprintf("TotalAlloc delta <= %d + F(type)*len(input), F(type) = %d * largest reflected element size; F ranges %d..%d over %d types", allocK0, allocFactor, min, max, len(factor)))
-	ev.Extra("grid_cells_total", fmt.Sprint(len(grid)))
+	ev.Extra("alloc_bound", fmt.Sprintf("TotalAlloc delta around one ReadFrom/UnsafeReadFrom <= %d + F(type)*len(input), F(type) = %d * largest reflected size of the type or of any slice element / pointee reachable from it (>= 16); F ranges %d..%d over %d types", allocK0, allocFactor, min, max, len(factor)))
+	types, cells := map[string]int{}, map[string]int{}
+	for _, b := range binds {
+		types[b.Kind]++
+		cells[b.Kind] += len(b.Versions())
+	}
+	named := map[string]uint64{}
+	for _, n := range []string{"Record", "RecordBatch", "MessageV0", "MessageV1", "StickyMemberMetadata", "FetchResponse", "ProduceRequest", "MetadataResponse"} {
+		if f, ok := factor[n]; ok {
+			named[n] = f
+		}
+	}
+	ev.Extra("grid", map[string]any{
+		"types_request": types["request"], "types_response": types["response"], "types_standalone": types["standalone"],
+		"cells_request": cells["request"], "cells_response": cells["response"], "cells_standalone": cells["standalone"],
+		"cells_total": len(grid), "decoders_per_cell": "ReadFrom, UnsafeReadFrom",
+	})
+	ev.Extra("alloc_factor_examples_bytes_per_input_byte", named)
 }
 
 // TestStructured: inputs (b) mutated valid encodings and (c) max-claim inputs, for
@@ -545,7 +705,32 @@ func TestStructured(t *testing.T) {
 	extras()
 	for _, c := range shardCells() {
 		c := c
-		rapid.Check(t, func(rt *rapid.T) { structured(rt, c) })
+		rapid.Check(t, func(rt *rapid.T) { structured(rt, c, false) })
+		if t.Failed() {
+			return
+		}
+	}
+}
+
+// TestHandwritten gives the hand-written and record / message-set decoders (a handful
+// of cells among hundreds) many more valid values each than TestStructured does.
+func TestHandwritten(t *testing.T) {
+	load(t)
+	for _, c := range shardCells() {
+		if !handwritten(c) {
+			continue
+		}
+		c := c
+		rapid.Check(t, func(rt *rapid.T) {
+			for i := 0; i < 12; i++ {
+				structured(rt, c, false)
+				ev.Class("handwritten_values")
+			}
+			for i := 0; i < 12; i++ {
+				in := rapid.SliceOfN(rapid.Byte(), 0, 64).Draw(rt, "bytes")
+				one(rt, c, "arbitrary", in)
+			}
+		})
 		if t.Failed() {
 			return
 		}
@@ -570,11 +755,23 @@ func TestArbitrary(t *testing.T) {
 	}
 }
 
-// FuzzDecode is the native fuzz target of the thorough tier: (cell index, bytes).
-func FuzzDecode(f *testing.F) {
-	load(f)
-	for i, c := range grid {
+// TestExtreme: single length fields rewritten to huge values (2^24 .. 2^32-1). It is
+// the last test (the run uses -test.failfast), see rewriteValue.
+func TestExtreme(t *testing.T) {
+	load(t)
+	for _, c := range shardCells() {
 		c := c
+		rapid.Check(t, func(rt *rapid.T) { structured(rt, c, true) })
+		if t.Failed() {
+			return
+		}
+	}
+}
+
+// seedCorpus adds one valid encoding per cell.
+func seedCorpus(f *testing.F, cells []int) {
+	for _, i := range cells {
+		c := grid[i]
 		gen := rapid.Custom(func(rt *rapid.T) []byte {
 			p := c.B.Generate(rt, c.V, krammar.ModeFull, nil)
 			tree, err := c.B.Tree(p, c.V)
@@ -589,18 +786,56 @@ func FuzzDecode(f *testing.F) {
 		})
 		f.Add(uint16(i), gen.Example(i+1))
 	}
+}
+
+func fuzzOne(t *testing.T, c krammar.Cell, in []byte) {
+	if len(in) > 1<<16 {
+		return
+	}
+	msg, decoded := evalInput(c, in)
+	if msg != "" {
+		t.Fatalf("VERIF-VIOLATION C16 %s version %d, fuzz input (%d bytes) %x: %s", c.B.Name, c.V, len(in), capBytes(in, 600), msg)
+	}
+	if decoded {
+		ev.Nontrivial(digest(c, in))
+		ev.Class("fuzz_decoded_ok")
+	}
+}
+
+// FuzzDecode is the native fuzz target over the whole grid: (cell index, bytes).
+func FuzzDecode(f *testing.F) {
+	load(f)
+	all := make([]int, len(grid))
+	for i := range all {
+		all[i] = i
+	}
+	seedCorpus(f, all)
 	f.Fuzz(func(t *testing.T, idx uint16, in []byte) {
-		c := grid[int(idx)%len(grid)]
-		if len(in) > 1<<16 {
-			return
+		fuzzOne(t, grid[int(idx)%len(grid)], in)
+	})
+}
+
+// FuzzDecodeRecords is the native fuzz target over the hand-written and record /
+// message-set decoders only (Record, RecordBatch, MessageV0, MessageV1, Header,
+// StickyMemberMetadata).
+func FuzzDecodeRecords(f *testing.F) {
+	load(f)
+	var cells []int
+	for i, c := range grid {
+		if handwritten(c) {
+			cells = append(cells, i)
 		}
-		msg, decoded := evalInput(c, in)
-		if msg != "" {
-			t.Fatalf("VERIF-VIOLATION C16 %s version %d, fuzz input (%d bytes) %x: %s", c.B.Name, c.V, len(in), capBytes(in, 600), msg)
+	}
+	if len(cells) == 0 {
+		fmt.Println("VERIF-INFRA: no hand-written decoders in the grid")
+		f.Fatalf("VERIF-INFRA: no hand-written decoders in the grid")
+	}
+	seedCorpus(f, cells)
+	f.Fuzz(func(t *testing.T, idx uint16, in []byte) {
+		i := int(idx)
+		if i >= len(grid) || !handwritten(grid[i]) {
+			i = cells[i%len(cells)]
 		}
-		if decoded {
-			ev.Case(digest(c, in), true)
-			ev.Class("fuzz_decoded_ok")
-		}
+		fuzzOne(t, grid[i], in)
 	})
 }
